@@ -155,6 +155,23 @@ class ExecCall(ExecExpr):
         if name == "copy" and self.is_seq(recv):
             yield st, (V(recv.kind, recv.t) if isinstance(recv, V) else VList(recv.items))
             return
+        if name == "index" and self.is_seq(recv) and len(args) == 1:
+            seq = self.to_seq(recv) if not self.is_symseq(recv) else recv
+            x = args[0]
+            k = z3.Int(self.w.fresh_name("idx"))
+            j = z3.Int(self.w.fresh_name("j"))
+            outs = list(self.eq_values(st, self.seq_elem(st, seq, k), x))
+            outs_j = list(self.eq_values(st, self.seq_elem(st, seq, j), x))
+            if len(outs) != 1 or len(outs_j) != 1:
+                raise EngineError("list.index with forking equality")
+            hit_k, hit_j = outs[0][1], outs_j[0][1]
+            n = SLen(seq.t)
+            self.oblige("safe", st, z3.Exists([j], z3.And(0 <= j, j < n, hit_j)), "list.index: element present (ValueError)",
+                        name=self.next_call_id("list-index"))
+            st.assume(z3.And(0 <= k, k < n, hit_k))
+            st.assume(z3.ForAll([j], z3.Implies(z3.And(0 <= j, j < k), z3.Not(hit_j))))
+            yield st, V("int", k)
+            return
         if name == "get" and isinstance(recv, VDict) and not recv.items:
             yield st, (args[1] if len(args) > 1 else NONE)
             return
@@ -622,6 +639,7 @@ class ExecCall(ExecExpr):
             st.assume(z3.ForAll([j], z3.Implies(rng, z3.And(facts + extra))))
         r = w.fresh(("seq", val.kind), "comp")
         R = r.t
+        st.assume(SLen(R) >= 0)
         # element function as a lambda over j: substitute
         def at(idx):
             return z3.substitute(val.t, (j, idx))
